@@ -32,7 +32,7 @@ MANIFEST = dict(
 
 SPEC_CFG = """CONSTANTS KeySeq <- MCKeySeq  ValSeq <- MCValSeq
 CONSTANTS MaxRowsA = %(ma)d  MaxRowsB = %(mb)d  MaxRowsC = %(mc)d
-CONSTANTS Stride = %(stride)d  Seed = %(seed)d  Stride3 = %(stride3)d  RScale = %(rscale)d  RCheck = %(rcheck)d
+CONSTANTS Stride = %(stride)d  Seed = %(seed)d  Stride3 = %(stride3)d  RScale = %(rscale)d  RCheck = %(rcheck)d  MetaStride = %(metastride)d
 SPECIFICATION Spec
 INVARIANT Containment LeftPreserves CrossSize Mirror WhereFilters NullNeverMatches ImplIsRef ScaleLawHolds ThreeWay
 INVARIANT EmitInv
@@ -171,21 +171,54 @@ def algo_of(plan):
 
 
 # ----------------------------------------------------------------------------- judging
-def judge(model, oc, count):
+_COMPILED = {}
+
+
+def compiled(model, count, key=None):
+    """TLC's answer for one (case, query) as Counters; cached because each is compared 12+ times"""
+    if key is not None and (key, count) in _COMPILED:
+        return _COMPILED[(key, count)]
+    c = (sqlbag.model_bag(model["exp"], count),
+         sorted(((len(d["kf"]), sorted(d["kf"]), sqlbag.model_bag(d["bag"], count)) for d in model["dev"]),
+                key=lambda t: (t[0], sorted(RANK.get(k, 99) for k in t[1]), t[1])))
+    if key is not None:
+        _COMPILED[(key, count)] = c
+    return c
+
+
+# tie-break between deviation sets of the same size that give the same bag: structural deviations before value-level ones
+PRIORITY = ["join_input_empty", "outer_input_as_inner", "where_as_on", "where_pushed_below_outer", "on_residual_dropped",
+            "reorder_drops_all_on", "reorder_drops_single_side_on", "right_unmatched_by_name", "input_where_lost",
+            "inner_chain_conjuncts_dropped", "inl_right_as_inner", "inl_filters_ignored", "null_eq_null"]
+RANK = {k: i for i, k in enumerate(PRIORITY)}
+KF_INDEX = {"inl_filters_ignored", "inl_right_as_inner"}
+KF_INPUT = {"join_input_empty", "outer_input_as_inner", "input_where_lost", "inner_chain_conjuncts_dropped"}
+
+
+def compatible(kf, algo):
+    """A deviation set can only explain an answer produced by the operator it describes: the inl_* deviations belong
+    to the index nested-loop operator (top-level operator reported by EXPLAIN), all others to the hash / nested-loop code."""
+    top = algo.split("+")[0]
+    names = set(kf) - KF_INPUT
+    if top == "INL":
+        return names <= KF_INDEX
+    if top == "NL" and "+" not in algo and "on_residual_dropped" in names:
+        return False        # a nested-loop join evaluates the whole ON; a lost conjunct there is the reordering's doing
+    return not (names & KF_INDEX)
+
+
+def judge(model, oc, count, key=None, algo=""):
     """model: {"exp": bag, "dev": [{"kf": [...], "bag": bag}]}; oc: sqlbag.outcome(..); count: "n" or "s".
     -> None (agrees with the specification) | ("kf", [names]) | ("unexplained"|"err"|"panic"|"missing", text)"""
     kind, val = oc
     if kind != "rows":
         return (kind, val)
-    if val == sqlbag.model_bag(model["exp"], count):
+    exp, devs = compiled(model, count, key)
+    if val == exp:
         return None
-    best = None
-    for d in model["dev"]:
-        if val == sqlbag.model_bag(d["bag"], count):
-            if best is None or (len(d["kf"]), sorted(d["kf"])) < (len(best), sorted(best)):
-                best = d["kf"]
-    if best is not None:
-        return ("kf", sorted(best))
+    for _, kf, bag in devs:           # smallest deviation set first
+        if val == bag and compatible(kf, algo):
+            return ("kf", kf)
     return ("unexplained", "")
 
 
@@ -218,7 +251,11 @@ def signatures(verdict, q, algo, budget, scaled):
 def gen_cases(chk, params):
     cfg = vlib.scratch() + "/Gen_Join_run.cfg"
     open(cfg, "w").write(SPEC_CFG % params)
-    gen = vlib.tlc_emit("MC_Join.tla", cfg, timeout=2400, workers=8)
+    reuse = os.environ.get("VERIF_C17_REUSE")          # development aid: parse a saved TLC output instead of running TLC
+    if reuse and os.path.exists(reuse):
+        gen = {"emitted": vlib.parse_emitted(open(reuse).read()), "violated": [], "stats": {}}
+    else:
+        gen = vlib.tlc_emit("MC_Join.tla", cfg, timeout=2400, workers=8)
     if gen["violated"]:
         raise vlib.ToolError("the Join oracle violates its own meta-invariant(s) %s" % gen["violated"])
     cat = [v for v in gen["emitted"] if v["n"] == 0]
@@ -243,8 +280,8 @@ def run(chk):
         "scaled tables replicate every row RScale times (replica number in a third column no query mentions)",
     ]
     vlib.build_harness(); chk.mark("build")
-    params = dict(ma=3, mb=3, mc=2, stride=29, stride3=37, rscale=60, rcheck=2, seed=chk.seed) if thorough else \
-        dict(ma=2, mb=2, mc=1, stride=13, stride3=7, rscale=20, rcheck=2, seed=chk.seed)
+    params = dict(ma=3, mb=3, mc=2, stride=29, stride3=37, rscale=60, rcheck=2, metastride=1, seed=chk.seed) if thorough else \
+        dict(ma=2, mb=2, mc=1, stride=41, stride3=11, rscale=20, rcheck=2, metastride=5, seed=chk.seed)
     cat, cases, stats = gen_cases(chk, params); chk.mark("tlc")
     sql = {2: [render(q) for q in cat["cat2"]], 3: [render(q) for q in cat["cat3"]]}
     rscale = cat["rscale"]
@@ -266,13 +303,15 @@ def run(chk):
 
     # ---- small tables: every query x physical design x budget
     sessions, index = [], []
+    bsalt = rng.randrange(4)
     for ci, case in enumerate(cases):
         qs = sql[case["n"]]
         for phys in PHYS:
             ops = setup_ops(case, phys)
             for bname, pre in BUDGETS:
                 ops += pre
-                ops += [{"k": "query", "sql": s, "qi": i, "bud": bname} for i, s in enumerate(qs)]
+                ops += [{"k": "query", "sql": s, "qi": i, "bud": bname} for i, s in enumerate(qs)
+                        if bname == "default" or thorough or (i + ci + bsalt) % 4 == 0]
             sessions.append(ops); index.append((ci, phys))
     results = sqlbag.run_sessions(sessions, "small"); chk.mark("run_small")
 
@@ -285,16 +324,27 @@ def run(chk):
 
     def report(case, phys, bname, q, qsql, model, oc, verdict, scaled, r):
         a = algo[(phys, q["n"], q["_i"])]
-        rep = {"tables": {k: case[k] for k in ("a", "b", "c") if k in case}, "phys": phys, "budget": bname, "scale": r,
-               "sql": qsql, "query": {k: v for k, v in q.items() if k != "_i"}, "algo": a, "model": model,
-               "count": "s" if scaled else "n",
-               "expected": sqlbag.bag_list(sqlbag.model_bag(model["exp"], "s" if scaled else "n")),
-               "observed": sqlbag.bag_list(oc[1]) if oc[0] == "rows" else {oc[0]: oc[1]}, "verdict": list(verdict)}
-        for sig in signatures(verdict, q, a, bname, scaled):
-            per_sig[sig] += 1
-            chk.classify(sig, rep)
+        sigs = signatures(verdict, q, a, bname, scaled)
         divergences.append((verdict, shape(q), a, phys, bname))
+        rep = None
+        for sig in sigs:
+            per_sig[sig] += 1
+            if sig in chk.findings.hit:            # a known finding already exemplified: count only
+                chk.findings.hit[sig]["count"] += 1
+                continue
+            if rep is None:
+                rep = {"tables": {k: case[k] for k in ("a", "b", "c") if k in case}, "phys": phys, "budget": bname, "scale": r,
+                       "sql": qsql, "query": {k: v for k, v in q.items() if k != "_i"}, "algo": a, "model": model,
+                       "count": "s" if scaled else "n",
+                       "expected": sqlbag.bag_list(sqlbag.model_bag(model["exp"], "s" if scaled else "n")),
+                       "observed": sqlbag.bag_list(oc[1]) if oc[0] == "rows" else {oc[0]: oc[1]}, "verdict": list(verdict)}
+            if sig in seen_violation:
+                continue
+            if not chk.findings.known(sig):
+                seen_violation.add(sig)
+            chk.classify(sig, rep)
 
+    seen_violation = set()
     for (ci, phys), ops, res in zip(index, sessions, results):
         case = cases[ci]
         qs = queries_of(cat, case)
@@ -321,7 +371,7 @@ def run(chk):
                        "sql": op["sql"], "default_budget_result": str(default_oc.get(i))[:400], "this_budget_result": str(oc)[:400],
                        "model": model, "count": "n", "algo": algo[(phys, q["n"], i)], "query": qs[i]}
                 chk.classify("budget_dependent:%s|%s" % (op["bud"], algo[(phys, q["n"], i)]), rep)
-            verdict = judge(model, oc, "n")
+            verdict = judge(model, oc, "n", None if selftest else (ci, i), algo[(phys, q["n"], i)])
             if verdict is None:
                 agree += 1
                 by_shape_ok[shape(q)] += 1
@@ -347,8 +397,10 @@ def run(chk):
             for bname, pre in budget_ops(SCALED_BUDGETS):
                 ops += pre
                 ops += [{"k": "query", "sql": sql[case["n"]][i], "qi": i, "bud": bname} for i in qsel]
+                ops.append({"k": "hits", "bud": bname})
             sessions.append(ops); index.append((ci, phys))
-    results = sqlbag.run_sessions(sessions, "scaled", watchdog=600); chk.mark("run_scaled")
+    results = sqlbag.run_sessions(sessions, "scaled", watchdog=600, sub="join-obs"); chk.mark("run_scaled")
+    points = collections.Counter()          # verification points of the join / spill code seen, per budget setting
     scaled_evals = scaled_agree = scaled_budget_errors = 0
     scaled_rows_max = 0
     for (ci, phys), ops, res in zip(index, sessions, results):
@@ -360,6 +412,9 @@ def run(chk):
             if op.get("setup") or op["k"] != "query":
                 if "ok" not in r:
                     raise vlib.ToolError("setup/budget op failed (scaled): %s -> %s" % (json.dumps(op)[:200], json.dumps(r)[:300]))
+                if op["k"] == "hits":
+                    for name, v in r["ok"]["points"].items():
+                        points[(op["bud"], name)] += v["n"]
                 continue
             i = op["qi"]
             q = dict(qs[i], _i=i)
@@ -368,7 +423,7 @@ def run(chk):
             scaled_evals += 1
             if oc[0] == "rows":
                 scaled_rows_max = max(scaled_rows_max, sum(oc[1].values()))
-            verdict = judge(model, oc, "s")
+            verdict = judge(model, oc, "s", (ci, i), algo[(phys, q["n"], i)])
             if verdict is None:
                 scaled_agree += 1
             else:
@@ -377,6 +432,17 @@ def run(chk):
                 report(case, phys, op["bud"], q, op["sql"], model, oc, verdict, True, rscale)
     chk.mark("judge_scaled")
 
+    hook_present = any(name.startswith("join.path.") for _, name in points)
+    spill_points = sum(n for (b, name), n in points.items() if name == "spill.partition")
+    grace_opens = sum(n for (b, name), n in points.items() if name == "join.grace.open")
+    if hook_present and spill_points == 0 and scaled_budget_errors == 0:
+        raise vlib.ToolError("vacuous budget dimension: under the squeezed budgets no join spilled and none failed; "
+                             "the scaled tables are too small to reach the budget")
+    if hook_present:
+        spill_note = "%d spill.partition points, %d grace-hash executor opens over %d scaled evaluations" % (spill_points, grace_opens, scaled_evals)
+    else:
+        spill_note = ("unverified: TurDB has no spill / join-path hook yet (proposed/C17-spill-hook.diff); by reading, "
+                      "Database::query never builds the GraceHashJoin executor, so no run can spill")
     # ---- non-vacuity
     classes = collections.Counter(f for c in cases for f in data_class(c))
     need = ["a_empty", "b_empty", "a_nullkey", "b_nullkey", "a_dupkey", "b_dupkey", "a_duprow", "b_duprow"]
@@ -399,15 +465,15 @@ def run(chk):
                 f.write("%6d %s\n" % (n, k))
     chk.cov = {
         "evaluations": evals + scaled_evals, "distinct_nontrivial": nontrivial,
-        "rule": "a (tables, query) pair whose expected bag is non-empty; each is run on 2 physical designs x 6 budgets",
+        "rule": "a (tables, query) pair whose expected bag is non-empty; each is run on 2 physical designs under the default budget and (quick tier: a 1-in-4 sample of them, thorough: all) under the 5 other budget settings",
         "cases_2way": len(cases) - n3, "cases_3way": n3, "query_shapes_2way": len(sql[2]), "query_shapes_3way": len(sql[3]),
         "tlc_states": stats.get("distinct"), "meta_invariants": "Containment LeftPreserves CrossSize Mirror WhereFilters NullNeverMatches ImplIsRef ScaleLawHolds ThreeWay",
         "data_classes": dict(classes), "operators_chosen": dict(algos_seen),
         "small_evaluations": evals, "small_agree": agree, "budget_dependent_results": budget_dependent,
         "scaled_factor": rscale, "scaled_evaluations": scaled_evals, "scaled_agree": scaled_agree,
         "scaled_budget_errors": scaled_budget_errors, "scaled_max_result_rows": scaled_rows_max,
-        "spill_observed": "unverified: no hook in partition_spiller.rs (proposed/C17-spill-hook.diff); by reading, "
-                          "Database::query never builds the GraceHashJoin executor, so no run can spill",
+        "spill_hook_present": hook_present, "spill_points": spill_points, "grace_hash_opens": grace_opens, "spill_observed": spill_note,
+        "join_points": {"%s:%s" % k: v for k, v in sorted(points.items())},
         "divergence_kinds": dict(kinds), "signatures": dict(per_sig),
         "agreeing_shapes": len(by_shape_ok), "samples": samples, "exhaustive": False, "selftest": selftest,
     }
@@ -429,7 +495,7 @@ def replay(chk, path):
     oc = sqlbag.outcome(res[-1])
     if "model" not in rp:
         print("stored case has no model answer"); return 2
-    verdict = judge(rp["model"], oc, rp.get("count", "n"))
+    verdict = judge(rp["model"], oc, rp.get("count", "n"), None, rp.get("algo", ""))
     print("signature:", d["signature"])
     print("tables   :", json.dumps(rp["tables"]), "phys:", rp["phys"], "budget:", rp["budget"], "scale:", r)
     print("sql      :", rp["sql"])
